@@ -10,7 +10,7 @@
    allocated - is modelled at the time it happens. *)
 From Coq Require Import List NArith ZArith Bool.
 From GoPdf.Base Require Import Bytes Res.
-From GoPdf.Gen Require Import Gen_Consts.
+From GoPdf.Gen Require Import Gen_Consts Gen_Limits.
 From GoPdf.C02 Require Import Obj Dec Syntax.
 Import ListNotations.
 Open Scope N_scope.
@@ -48,7 +48,9 @@ Definition filt := (bytes * dict)%type.        (* filter name, decode parameters
 
 Inductive pobj :=
 | PObj (o : obj)
-| PStream (d : dict) (data : bytes).           (* a *pdf.Stream value *)
+| PStream (d : dict) (data : bytes) (big : bool).
+  (* a *pdf.Stream value; [big]: its encoded data reaches 1024 bytes (read when the Put is deferred;
+     angelic unless nothing encodes the data) *)
 
 Inductive op :=
 | Alloc
@@ -315,8 +317,31 @@ Section Writer.
     bc (negb (has_crypt_first d)) n g (encode_chain fs data).
 
   (* the dictionary as written, without /Length *)
+  (* the chain a dictionary declares already: names with their parameters (OpenStream re-appends
+     them behind the filters it applies itself) *)
+  Fixpoint zip_chain (names pp : list obj) : list filt :=
+    match names with
+    | [] => []
+    | n :: names' =>
+      (match n with OName f => f | _ => [] end,
+       match pp with ODict p :: _ => p | _ => [] end) :: zip_chain names' (tl pp)
+    end.
+
+  Definition old_chain (d : dict) : list filt :=
+    match dict_get k_Filter d with
+    | Some (OName f) => [(f, as_dict (dict_get k_DecodeParms d))]
+    | Some (OArr names) =>
+      zip_chain names (match dict_get k_DecodeParms d with Some (OArr l) => l | _ => [] end)
+    | _ => []
+    end.
+
   Definition stream_dict (n g : N) (d : dict) (fs : list filt) : dict :=
-    add_filters (dict_del k_Length d) fs.
+    let d0 := dict_del k_Length d in
+    match dict_get k_Filter d0, fs with
+    | Some _, _ :: _ =>
+      add_filters (add_filters (dict_del k_Filter (dict_del k_DecodeParms d0)) fs) (old_chain d0)
+    | _, _ => add_filters d0 fs
+    end.
 
   Definition stream_chunk (n g : N) (sd : dict) (lr : lenrep) (raw : bytes) : bytes :=
     hdr_of n g ++ fmt_sd sd lr ++ k_stream_nl ++ raw ++ k_endstream_endobj ++ nl c.
@@ -379,21 +404,31 @@ Section Writer.
       else Err Other)
     end.
 
-  (* the loop over Writer.afterStream at the end of streamWriter.Close *)
-  Fixpoint flush_after (l : list (N * N * pobj)) (st : state) : res state :=
+  (* what a nested Close (of a deferred *Stream) finds deferred: the list was emptied before the
+     outer loop started, and nobody can Put while the nested stream is written, so it is at most
+     the indirect /Length object of that stream *)
+  Fixpoint flush_objs (l : list (N * N * pobj)) (st : state) : res state :=
     match l with
     | [] => Ok (with_after [] st)
+    | (n, g, PObj o) :: r => bind (put_obj n g o st) (flush_objs r)
+    | (_, _, PStream _ _ _) :: _ => Err Panic
+    end.
+
+  (* the loop at the end of streamWriter.Close over the deferred objects, which have been taken
+     out of Writer.afterStream before (pending := afterStream; afterStream = nil).  A deferred
+     *Stream goes through OpenStream, Copy, Close. *)
+  Fixpoint flush_after (l : list (N * N * pobj)) (st : state) : res state :=
+    match l with
+    | [] => Ok st
     | (n, g, PObj o) :: r => bind (put_obj n g o st) (flush_after r)
-    | (n, g, PStream d data) :: r =>
-      (* Put -> OpenStream, Copy, Close; that Close finds afterStream still
-         complete and stops at its first element with errDuplicateRef (the
-         element is this stream itself or something written before it) *)
+    | (n, g, PStream d data big) :: r =>
       bind (put_stream_now n g d data st) (fun st1 =>
-      bind (finish_stream false st1) (fun _ => Err Other))
+      bind (finish_stream big st1) (fun st2 =>
+      bind (flush_objs (after st2) st2) (flush_after r)))
     end.
 
   Definition close_stream (big : bool) (st : state) : res state :=
-    bind (finish_stream big st) (fun st1 => flush_after (after st1) st1).
+    bind (finish_stream big st) (fun st1 => flush_after (after st1) (with_after [] st1)).
 
   Definition put (n g : N) (o : pobj) (big : bool) (st : state) : res state :=
     match strm st with
@@ -401,7 +436,7 @@ Section Writer.
     | None =>
       match o with
       | PObj x => put_obj n g x st
-      | PStream d data => bind (put_stream_now n g d data st) (close_stream big)
+      | PStream d data _ => bind (put_stream_now n g d data st) (close_stream big)
       end
     end.
 
@@ -411,7 +446,7 @@ Section Writer.
     | [], [] => true
     | (_, g) :: rs', o :: os' =>
       match o with
-      | PStream _ _ => false
+      | PStream _ _ _ => false
       | PObj (ORef _ _) => false
       | PObj _ => (g =? 0) && check_compressed rs' os'
       end
@@ -430,7 +465,7 @@ Section Writer.
     | (n, _) :: rs' => bind (set_xref n (EComp sref i) st) (set_comp sref (i + 1) rs')
     end.
 
-  Definition pobj_obj (o : pobj) : obj := match o with PObj x => x | PStream _ _ => ONull end.
+  Definition pobj_obj (o : pobj) : obj := match o with PObj x => x | PStream _ _ _ => ONull end.
 
   (* "num offset\n" lines and the concatenated objects *)
   Fixpoint objstm_parts (rs : list (N * N)) (parts : list bytes) (off : N) : bytes * bytes :=
@@ -532,16 +567,19 @@ Section Writer.
     let w2 := width_of m2 in let w3 := width_of m3 in
     let cols := 1 + w2 + w3 in
     let rows := xref_rows (xref st1) size (N.to_nat w2) (N.to_nat w3) in
-    let data := deflate (png_up (repeat 0 (N.to_nat cols)) rows) in
+    let zdata := deflate (png_up (repeat 0 (N.to_nat cols)) rows) in
+    (* a table that compresses below the reader's entry budget is stored as it is *)
+    let sparse := (Gen_Limits.MaxXRefEntries (Z.of_nat (length zdata)) <? Z.of_N size)%Z in
+    let data := if sparse then concat rows else zdata in
     let d := dict_set k_Size (OInt (Z.of_N size)) tr ++
              [(k_Type, OName k_XRef);
-              (k_W, OArr [OInt 1; OInt (Z.of_N w2); OInt (Z.of_N w3)]);
-              (k_Filter, OName k_FlateDecode);
-              (k_DecodeParms, ODict [(k_Columns, OInt (Z.of_N cols)); (k_Predictor, OInt 12)]);
-              (k_Length, OInt (Z.of_nat (length data)))] in
+              (k_W, OArr [OInt 1; OInt (Z.of_N w2); OInt (Z.of_N w3)])] ++
+             (if sparse then []
+              else [(k_Filter, OName k_FlateDecode);
+                    (k_DecodeParms, ODict [(k_Columns, OInt (Z.of_N cols)); (k_Predictor, OInt 12)])]) in
     (* w.w.enc = nil: neither strings nor data are encrypted *)
     bind (set_xref r (EUse (pos st1) 0) st1) (fun st2 =>
-    Ok (emit (hdr_of r 0 ++ fmt_sd (dict_del k_Length d) (LDirect (N.of_nat (length data))) ++
+    Ok (emit (hdr_of r 0 ++ fmt_sd d (LDirect (N.of_nat (length data))) ++
               k_stream_nl ++ data ++ k_endstream_endobj ++ nl c)
           {| out := out st2; pos := pos st2; xref := xref st2; nextRef := nextRef st2;
              strm := strm st2; after := after st2; wr := wr st2; xtab := xref st1;
